@@ -222,12 +222,14 @@ def seekBase (st : St) (whence : Int) : Option Nat :=
 /-- the SFM_ qualifier of a known whence value -/
 def seekQual (whence : Int) : Int := whence / 0x10 * 0x10
 
+/-- which pointer(s) a whence value names: its SFM_ qualifier, or the mode of the handle for a plain value -/
+def seekPtr (st : St) (whence : Int) : Int :=
+  if seekQual whence = 0 then (match st.mode with | .r => 0x10 | .w => 0x20 | .rw => 0x30) else seekQual whence
+
 /-- C08: "whence values combined with SFM_READ or SFM_WRITE move only that pointer while plain whence values move both" -/
 def seekMove (st : St) (whence : Int) (t : Nat) : St :=
-  let q := seekQual whence
-  let q := if q = 0 then (match st.mode with | .r => 0x10 | .w => 0x20 | .rw => 0x30) else q
-  if q = 0x10 then { st with rpos := t, err := false }
-  else if q = 0x20 then { st with wpos := t, err := false }
+  if seekPtr st whence = 0x10 then { st with rpos := t, err := false }
+  else if seekPtr st whence = 0x20 then { st with wpos := t, err := false }
   else { st with rpos := t, wpos := t, err := false }
 
 /-- the absolute frame a seek asks for, when the request is one sf_seek may accept -/
